@@ -3,7 +3,7 @@
 (* scripted chain - version x entry point x with/without confirmation x        *)
 (* account state (none, uninit, frozen, error, active with a stored seqno, and  *)
 (* an active wallet with a non-empty extension dictionary) x send outcome x     *)
-(* poll answers (error / unchanged / advanced, up to MaxPolls of them, then the *)
+(* poll answers (error / unchanged / lower / advanced, <= MaxPolls, then the     *)
 (* deadline) - and prints one vector per complete history: what the chain       *)
 (* answers (including the account's data cell, written by the specification)    *)
 (* and what the wallet must have done.  Only the environment branches; where    *)
@@ -13,7 +13,7 @@ EXTENDS WalletSend, TLC
 VARIABLES p, s, hist
 vars == <<p, s, hist>>
 
-Params   == ndJsonDeserialize("params.ndjson")[1]     \* {"seeds":[hex32,..],"wcs":[0,-1,..],"maxpolls":6,"rawmaxpolls":6,"rawseqs":["0",..],"rot":0}
+Params   == ndJsonDeserialize("params.ndjson")[1]     \* {"seeds":[hex32,..],"wcs":[0,-1,..],"maxpolls":6,"rawmaxpolls":6,"rawseqs":["0",..],"lowermode":"full"|"sparse","rot":0}
 MaxPolls == Params.maxpolls
 RawMaxPolls == Params.rawmaxpolls                       \* bound for the entry points that take seqno / init from the caller
 Seeds    == Params.seeds
@@ -44,8 +44,25 @@ BuildEv == IF p.entry \in RawEntries THEN [k |-> "Build", seq |-> SeqOr(p.ver, p
            ELSE IF s.st = "active" THEN [k |-> "Build", seq |-> SeqOr(p.ver, s.n), init |-> FALSE, free |-> FALSE]
            ELSE [k |-> "Build", seq |-> SeqOr(p.ver, "0"), init |-> TRUE, free |-> s.st = "frozen"]
 SendEv(r) == [k |-> "Send", srcNone |-> TRUE, destOK |-> TRUE, seq |-> s.seq, init |-> s.init, initOK |-> TRUE, r |-> r]
-PollEvs == {[k |-> "Poll", r |-> "err", v |-> "", own |-> TRUE], [k |-> "Poll", r |-> "val", v |-> s.seq, own |-> TRUE]}
-           \cup (IF SuccOf(s.seq) # "" THEN {[k |-> "Poll", r |-> "val", v |-> SuccOf(s.seq), own |-> TRUE]} ELSE {})
+\* what a poll can answer: an error, the seqno used (unchanged), a LOWER seqno (a lagging server: the seqno has not advanced
+\* either - like unchanged), a higher one (advanced). Lower answers alternate between n-1 and 0.
+LowerOf(n, i) == CASE n = "1" -> "0"
+                   [] n = "7" -> IF i % 2 = 1 THEN "6" ELSE "0"
+                   [] n = "4294967295" -> IF i % 2 = 1 THEN "4294967294" ELSE "0"
+                   [] OTHER -> ""                                        \* nothing is below 0
+PollsSoFar == SelectSeq(hist, LAMBDA e : e.k = "Poll")
+HadLower   == \E i \in 1..Len(PollsSoFar) : PollsSoFar[i].r = "val" /\ PollsSoFar[i].v # s.seq
+AllSame    == \A i \in 1..Len(PollsSoFar) : PollsSoFar[i].r = "val" /\ PollsSoFar[i].v = s.seq
+\* LowerMode "full": the full product over the four answers (entry points that read the account state);
+\* "sparse": at most one lower answer per history, at every position, among unchanged answers, then unchanged / advanced
+FullLower  == Params.lowermode = "full" /\ p.entry \in StateEntries
+PollErr    == [k |-> "Poll", r |-> "err", v |-> "", own |-> TRUE]
+PollVal(x) == [k |-> "Poll", r |-> "val", v |-> x, own |-> TRUE]
+PollEvs == (IF FullLower \/ ~HadLower THEN {PollErr} ELSE {})
+           \cup {PollVal(s.seq)}
+           \cup (IF SuccOf(s.seq) # "" THEN {PollVal(SuccOf(s.seq))} ELSE {})
+           \cup (IF LowerOf(s.seq, s.polls + 1) # "" /\ (FullLower \/ (~HadLower /\ AllSame))
+                 THEN {PollVal(LowerOf(s.seq, s.polls + 1))} ELSE {})
 ReturnRes == CASE s.pc = "got" -> "err"
                [] s.pc = "failed" -> "err"
                [] s.pc = "sent" -> IF ~p.confirm THEN "ok" ELSE IF ~ConfirmSupported(p.ver) THEN "err"
